@@ -387,7 +387,29 @@ enum Obj {
     BIter { it: Box<dyn DynIter>, model: VecDeque<usize>, single: bool },
     Fwd { f: Arc<memmem::Finder<'static>>, needle: BufId, cfg: FinderCfg, owned: bool },
     Rev { f: Arc<memmem::FinderRev<'static>>, needle: BufId, owned: bool },
-    Sub { it: Box<dyn DynSub>, list: Arc<Vec<usize>>, idx: usize, inert: Option<u32>, owned: bool },
+    Sub {
+        it: Box<dyn DynSub>,
+        list: Arc<Vec<usize>>,
+        idx: usize,
+        inert: Option<u32>,
+        owned: bool,
+        /// how to build an iterator like this one from scratch
+        recipe: SubRecipe,
+        /// number of next() calls made on this lineage so far
+        calls: usize,
+        /// for forks (clone / into_owned): an iterator that was brought to
+        /// the fork point WITHOUT clone/into_owned, by replaying the calls
+        witness: Option<Box<dyn DynSub>>,
+    },
+}
+
+#[derive(Clone)]
+struct SubRecipe {
+    rev: bool,
+    hay: BufId,
+    needle: BufId,
+    /// None: top-level memmem::find_iter / rfind_iter
+    cfg: Option<FinderCfg>,
 }
 
 struct Msg {
@@ -684,15 +706,25 @@ impl<'a> Th<'a> {
             }
             Op::FIterNew { f, rev, hay, needle, dst } => self.op_fiter_new(*f, *rev, *hay, *needle, *dst),
             Op::FIterNext { it } => match self.get(*it) {
-                Some(Obj::Sub { it, list, idx, inert, .. }) => {
+                Some(Obj::Sub { it, list, idx, inert, calls, witness, .. }) => {
                     with_ctx(|c| c.inert_countdown = *inert);
                     let r = it.next();
                     *inert = with_ctx(|c| c.inert_countdown.take()).flatten();
+                    *calls += 1;
                     let e = list.get(*idx).copied();
                     if e.is_some() {
                         *idx += 1;
                     }
-                    Out::new("fiter_next", res_of(r, Res::opt)).expect(VKind::SubIter, Res::opt(e))
+                    let res = res_of(r, Res::opt);
+                    // a fork (clone / into_owned) must behave exactly like an
+                    // iterator that reached the fork point the ordinary way
+                    if let Some(wit) = witness.as_mut() {
+                        let wr = res_of(wit.next(), Res::opt);
+                        if wr != res {
+                            return Out::new("fiter_next", res).expect(VKind::History, wr);
+                        }
+                    }
+                    Out::new("fiter_next", res).expect(VKind::SubIter, Res::opt(e))
                 }
                 _ => Out::skip("fiter_next"),
             },
@@ -717,14 +749,15 @@ impl<'a> Th<'a> {
             },
             Op::FIterClone { it, dst } => {
                 let forked = match self.get(*it) {
-                    Some(Obj::Sub { it, list, idx, inert, owned }) => {
-                        Some((it.fork(), list.clone(), *idx, *inert, *owned))
+                    Some(Obj::Sub { it, list, idx, inert, owned, recipe, calls, .. }) => {
+                        Some((it.fork(), list.clone(), *idx, *inert, *owned, recipe.clone(), *calls))
                     }
                     _ => None,
                 };
                 match forked {
-                    Some((Ok(it2), list, idx, inert, owned)) => {
-                        self.put(*dst, Obj::Sub { it: it2, list, idx, inert, owned });
+                    Some((Ok(it2), list, idx, inert, owned, recipe, calls)) => {
+                        let witness = self.make_witness(&recipe, calls);
+                        self.put(*dst, Obj::Sub { it: it2, list, idx, inert, owned, recipe, calls, witness });
                         let mut o = Out::new("fiter_clone", Res::Unit);
                         o.allow_alloc = owned;
                         o
@@ -734,9 +767,13 @@ impl<'a> Th<'a> {
                 }
             }
             Op::FIterOwn { it } => match self.take(*it) {
-                Some(Obj::Sub { it: real, list, idx, inert, owned }) => match real.own() {
+                Some(Obj::Sub { it: real, list, idx, inert, owned, recipe, calls, witness }) => match real.own() {
                     Ok((it2, converted)) => {
-                        self.put(*it, Obj::Sub { it: it2, list, idx, inert, owned: owned || converted });
+                        let witness = if converted { self.make_witness(&recipe, calls) } else { witness };
+                        self.put(
+                            *it,
+                            Obj::Sub { it: it2, list, idx, inert, owned: owned || converted, recipe, calls, witness },
+                        );
                         if converted {
                             let mut o = Out::new("fiter_own", Res::Unit);
                             o.allow_alloc = true;
@@ -958,7 +995,7 @@ impl<'a> Th<'a> {
             Op::Lockstep { needle, cfgs, hays, iter, inert_at } => {
                 self.op_lockstep(*needle, cfgs, hays, *iter, inert_at)
             }
-            Op::Cost { f, hay, needle } => self.op_cost(*f, *hay, *needle),
+            Op::Cost { f, hay, needle, cfg } => self.op_cost(*f, *hay, *needle, cfg.as_ref()),
         }
     }
 
@@ -1056,6 +1093,7 @@ impl<'a> Th<'a> {
                 },
             };
             served += 1;
+            self.w.stats.lock().unwrap().inner_evals += 1;
             match &first {
                 None => first = Some((be, r)),
                 Some((be0, r0)) => {
@@ -1123,7 +1161,7 @@ impl<'a> Th<'a> {
             Some(Obj::Fwd { f, needle, cfg, .. }) => {
                 let f = f.clone();
                 let (needle, cfg) = (*needle, cfg.clone());
-                let r = if via_ref { lib(|| f.as_ref().find(h)) } else { lib(|| f.find(h)) };
+                let r = if via_ref { lib(|| memmem::Finder::as_ref(&f).find(h)) } else { lib(|| f.find(h)) };
                 let nb = self.bytes(needle);
                 // history independence: a freshly built finder for the same
                 // needle (built from the harness' own copy, the original
@@ -1146,7 +1184,7 @@ impl<'a> Th<'a> {
             Some(Obj::Rev { f, needle, .. }) => {
                 let f = f.clone();
                 let needle = *needle;
-                let r = if via_ref { lib(|| f.as_ref().rfind(h)) } else { lib(|| f.rfind(h)) };
+                let r = if via_ref { lib(|| memmem::FinderRev::as_ref(&f).rfind(h)) } else { lib(|| f.rfind(h)) };
                 let nb = self.bytes(needle);
                 let fresh = lib(|| memmem::FinderRev::new(nb).rfind(h));
                 let res = res_of(r, Res::opt);
@@ -1223,7 +1261,8 @@ impl<'a> Th<'a> {
                     match lib(|| memmem::rfind_iter(h, n)) {
                         Ok(it) => {
                             let list = Arc::new(model::rfind_all(hb, nb));
-                            self.put(dst, Obj::Sub { it: Box::new(RevIt { it, keep: None }), list, idx: 0, inert: None, owned: false });
+                            let recipe = SubRecipe { rev, hay, needle, cfg: None };
+                            self.put(dst, Obj::Sub { it: Box::new(RevIt { it, keep: None }), list, idx: 0, inert: None, owned: false, recipe, calls: 0, witness: None });
                             Out::new("rfind_iter_new", Res::Unit)
                         }
                         Err(m) => Out::new("rfind_iter_new", Res::Panic(m)).expect(VKind::SubIter, Res::Unit),
@@ -1232,7 +1271,8 @@ impl<'a> Th<'a> {
                     match lib(|| memmem::find_iter(h, n)) {
                         Ok(it) => {
                             let list = Arc::new(model::find_all(hb, nb));
-                            self.put(dst, Obj::Sub { it: Box::new(FwdIt { it, keep: None }), list, idx: 0, inert: None, owned: false });
+                            let recipe = SubRecipe { rev, hay, needle, cfg: None };
+                            self.put(dst, Obj::Sub { it: Box::new(FwdIt { it, keep: None }), list, idx: 0, inert: None, owned: false, recipe, calls: 0, witness: None });
                             Out::new("find_iter_new", Res::Unit)
                         }
                         Err(m) => Out::new("find_iter_new", Res::Panic(m)).expect(VKind::SubIter, Res::Unit),
@@ -1242,30 +1282,35 @@ impl<'a> Th<'a> {
             Some(slot) => {
                 let ep = self.ep;
                 let made = match self.get(slot) {
-                    Some(Obj::Fwd { f, needle, owned, .. }) => {
+                    Some(Obj::Fwd { f, needle, cfg, .. }) => {
                         let keep = f.clone();
                         // SAFETY: `keep` lives next to the iterator and is dropped after it.
                         let r: &'static memmem::Finder<'static> = unsafe { &*Arc::as_ptr(&keep) };
                         let nb = &ep.bufs[*needle].bytes;
-                        let owned = *owned;
+                        let recipe = SubRecipe { rev: false, hay, needle: *needle, cfg: Some(cfg.clone()) };
                         Some(lib(|| r.find_iter(h)).map(|it| {
                             (
                                 Box::new(FwdIt { it, keep: Some(keep) }) as Box<dyn DynSub>,
                                 Arc::new(model::find_all(hb, nb)),
-                                owned,
+                                recipe,
                             )
                         }))
                     }
-                    Some(Obj::Rev { f, needle, owned }) => {
+                    Some(Obj::Rev { f, needle, .. }) => {
                         let keep = f.clone();
                         let r: &'static memmem::FinderRev<'static> = unsafe { &*Arc::as_ptr(&keep) };
                         let nb = &ep.bufs[*needle].bytes;
-                        let owned = *owned;
+                        let recipe = SubRecipe {
+                            rev: true,
+                            hay,
+                            needle: *needle,
+                            cfg: Some(FinderCfg { prefilter: true, ranker: Ranker::Default }),
+                        };
                         Some(lib(|| r.rfind_iter(h)).map(|it| {
                             (
                                 Box::new(RevIt { it, keep: Some(keep) }) as Box<dyn DynSub>,
                                 Arc::new(model::rfind_all(hb, nb)),
-                                owned,
+                                recipe,
                             )
                         }))
                     }
@@ -1273,17 +1318,45 @@ impl<'a> Th<'a> {
                 };
                 match made {
                     None => Out::skip("finder_iter_new"),
-                    Some(Ok((it, list, owned))) => {
+                    Some(Ok((it, list, recipe))) => {
                         // `as_ref()` of an owned finder is a borrow, so the
                         // iterator itself is never owned at this point
-                        let _ = owned;
-                        self.put(dst, Obj::Sub { it, list, idx: 0, inert: None, owned: false });
+                        self.put(
+                            dst,
+                            Obj::Sub { it, list, idx: 0, inert: None, owned: false, recipe, calls: 0, witness: None },
+                        );
                         Out::new("finder_iter_new", Res::Unit)
                     }
                     Some(Err(m)) => Out::new("finder_iter_new", Res::Panic(m)).expect(VKind::SubIter, Res::Unit),
                 }
             }
         }
+    }
+
+    /// An iterator equivalent to the recipe's, advanced by `calls` next()
+    /// calls -- built without clone()/into_owned(), from the harness' own
+    /// copy of the needle (the caller's buffer may be dead by now).
+    fn make_witness(&mut self, recipe: &SubRecipe, calls: usize) -> Option<Box<dyn DynSub>> {
+        let h = arena_slice(recipe.hay);
+        let nb: &'static [u8] = unsafe { &*(self.bytes(recipe.needle) as *const [u8]) };
+        let mut it: Box<dyn DynSub> = match (&recipe.cfg, recipe.rev) {
+            (None, false) => Box::new(FwdIt { it: lib(|| memmem::find_iter(h, nb)).ok()?, keep: None }),
+            (None, true) => Box::new(RevIt { it: lib(|| memmem::rfind_iter(h, nb)).ok()?, keep: None }),
+            (Some(cfg), false) => {
+                let keep = Arc::new(build_fwd(cfg, nb, nb).ok()?);
+                let r: &'static memmem::Finder<'static> = unsafe { &*Arc::as_ptr(&keep) };
+                Box::new(FwdIt { it: lib(|| r.find_iter(h)).ok()?, keep: Some(keep) })
+            }
+            (Some(_), true) => {
+                let keep = Arc::new(lib(|| memmem::FinderRev::new(nb)).ok()?);
+                let r: &'static memmem::FinderRev<'static> = unsafe { &*Arc::as_ptr(&keep) };
+                Box::new(RevIt { it: lib(|| r.rfind_iter(h)).ok()?, keep: Some(keep) })
+            }
+        };
+        for _ in 0..calls {
+            it.next().ok()?;
+        }
+        Some(it)
     }
 
     fn op_packed(
@@ -1452,6 +1525,7 @@ impl<'a> Th<'a> {
                     with_ctx(|c| c.inert_countdown = inert_at.get(i).copied().flatten());
                     let r = res_of(lib(|| f.find(h)), Res::opt);
                     with_ctx(|c| c.inert_countdown = None);
+                    self.w.stats.lock().unwrap().inner_evals += 1;
                     match &first {
                         None => first = Some(r),
                         Some(f0) => {
@@ -1482,6 +1556,7 @@ impl<'a> Th<'a> {
                         with_ctx(|c| c.inert_countdown = counts[i]);
                         let r = res_of(lib(|| it.next()), Res::opt);
                         counts[i] = with_ctx(|c| c.inert_countdown.take()).flatten();
+                        self.w.stats.lock().unwrap().inner_evals += 1;
                         match &first {
                             None => first = Some(r),
                             Some(f0) => {
@@ -1509,12 +1584,27 @@ impl<'a> Th<'a> {
         Out::new(if iter { "lockstep_iter" } else { "lockstep_find" }, Res::List(all))
     }
 
-    fn op_cost(&mut self, f: CostFn, hay: BufId, needle: BufId) -> Out {
+    fn op_cost(&mut self, f: CostFn, hay: BufId, needle: BufId, cfg: Option<&FinderCfg>) -> Out {
         let h = arena_slice(hay);
         let n = arena_slice(needle);
+        let nbytes = self.bytes(needle);
+        // building the finder is part of the measured work
+        let build = |n: &'static [u8]| -> memmem::Finder<'static> {
+            match cfg {
+                None => memmem::Finder::new(n),
+                Some(cfg) => {
+                    let mut b = memmem::FinderBuilder::new();
+                    b.prefilter(if cfg.prefilter { memmem::Prefilter::Auto } else { memmem::Prefilter::None });
+                    match model::ranker_table(&cfg.ranker, nbytes) {
+                        None => b.build_forward(n),
+                        Some(t) => b.build_forward_with_ranker(TableRanker(t), n),
+                    }
+                }
+            }
+        };
         let t0 = ticks();
         let r: Result<(u64, u64), String> = match f {
-            CostFn::BuildFind => lib(|| (1, memmem::Finder::new(n).find(h).map_or(u64::MAX, |x| x as u64))),
+            CostFn::BuildFind => lib(|| (1, build(n).find(h).map_or(u64::MAX, |x| x as u64))),
             CostFn::BuildRfind => lib(|| (1, memmem::FinderRev::new(n).rfind(h).map_or(u64::MAX, |x| x as u64))),
             CostFn::MemFind => lib(|| (1, memmem::find(h, n).map_or(u64::MAX, |x| x as u64))),
             CostFn::MemRfind => lib(|| (1, memmem::rfind(h, n).map_or(u64::MAX, |x| x as u64))),
@@ -1522,7 +1612,8 @@ impl<'a> Th<'a> {
                 let cap = h.len() + 3;
                 let mut c = 0u64;
                 let mut last = u64::MAX;
-                for x in memmem::find_iter(h, n) {
+                let finder = build(n);
+                for x in finder.find_iter(h) {
                     c += 1;
                     last = x as u64;
                     if c as usize > cap {
@@ -1560,7 +1651,7 @@ impl<'a> Th<'a> {
                     h.len(),
                     n.len(),
                     bound,
-                    crate::COST_K,
+                    crate::cost_k(),
                     crate::COST_C
                 ),
             );
